@@ -5,7 +5,8 @@ import MLPE.Proofs.PlainDemo
 
 **Plain pipelines (`PlainP`)**: only `Input` dependencies; any number of nodes, any DAG shape; arbitrary retry /
 default / execution-mode settings; node failures anywhere, at any attempt; `None` / falsy results; collaborators that
-do not suspend.  Quantified over every interleaving of task sections, every completion order of node bodies and retry
+do not suspend — but may **raise**: an event-manager callback or the artifact store failing at any call site
+(`cbRaise`).  Quantified over every interleaving of task sections, every completion order of node bodies and retry
 timers, every launch order a topological sort may produce, and cancellation of the caller at any point:
 
 * `C02_plain_no_stuck_state`: while the run is pending, the engine model is never in a state in which the loop is idle
